@@ -34,6 +34,70 @@ def run(ctx) -> None:
     ctx.reuse("C06.step-guard", c03.step_guard_wiring)
     ctx.guard("C06.partition", partition_volume)
     ctx.guard("C06.multi-disp", multi_disp)
+    ctx.guard("C06.config", config)
+
+
+def config(ctx) -> None:
+    """The limit and the splitting switch the user configured are the ones every later decision reads:
+    self.max_volume / self.auto_split are stored once, in a worklist constructor, as the unmodified parameter."""
+    rule = "C06.config"
+    base = ctx.prog.require_class("BaseWorklist", rule)
+    n_stores = 0
+    for f in ctx.prog.all_functions():
+        for st in own_walk(f.node):
+            if not isinstance(st, (ast.Assign, ast.AugAssign, ast.AnnAssign)):
+                continue
+            tgts = st.targets if isinstance(st, ast.Assign) else [st.target]
+            for t in tgts:
+                if not (isinstance(t, ast.Attribute) and t.attr in ("max_volume", "auto_split")):
+                    continue
+                fv = ctx.fv(f)
+                recv = fv.env.get(t.value.id) if isinstance(t.value, ast.Name) else None
+                if recv is None or base not in ctx.prog.mro(recv):
+                    continue
+                n_stores += 1
+                ctx.rep.touch(f)
+                c = f"{f.qualname}/{stmt_key(st)[:50]}"
+                w = f.where(st)
+                if f.name != "__init__" or isinstance(st, ast.AugAssign) or st.value is None:
+                    ctx.rep.refuted(rule, c, f"`{stmt_key(st)[:60]}` changes the configured {t.attr} outside the constructor: later steps are split/checked against a limit the user did not set", where=w)
+                    continue
+                val = fv.res.resolve(st.value, fv.node_of(st.value))
+                core = val
+                while isinstance(core, ast.Call) and call_fname(core) in ("float", "bool") and len(core.args) == 1:
+                    core = core.args[0]
+                if is_name(core, t.attr) and t.attr in f.params:
+                    ctx.rep.holds(rule, c, f"stores the {t.attr} parameter unchanged", where=w)
+                elif any(isinstance(x, ast.Call) and call_fname(x) in ("int", "round", "floor", "ceil", "trunc", "min", "max", "abs", "around", "rint") for x in ast.walk(val)) or isinstance(val, ast.Constant):
+                    ctx.rep.refuted(rule, c, f"the constructor stores `{show(val)[:60]}` instead of the {t.attr} the user configured: splitting and limit checks use a different limit "
+                                    "(more steps than necessary, or a zero limit)", where=w)
+                else:
+                    ctx.rep.inconclusive(rule, c, f"cannot relate the stored `{show(val)[:60]}` to the {t.attr} parameter", where=w)
+    ctx.rep.floor(rule, "stores of max_volume / auto_split on worklists", n_stores, 2)
+    binit = ctx.prog.find_method(base, "__init__")
+    for dev in concrete_devices(ctx):
+        f = ctx.prog.find_method(dev, "__init__")
+        if f is None or f is binit:
+            continue
+        fv = ctx.fv(f, dev)
+        sup = [cs for cs in fv.calls() if cs.callee.kind == "func" and cs.callee.func is binit]
+        c = f"{dev.name}.__init__->BaseWorklist.__init__"
+        if len(sup) != 1:
+            ctx.rep.inconclusive(rule, c, f"expected one call of the base constructor, found {len(sup)}", where=f.where())
+            continue
+        call = sup[0].call
+        fa = f.node.args
+        forwards_all = fa.vararg is not None and fa.kwarg is not None and any(isinstance(a, ast.Starred) and is_name(a.value, fa.vararg.arg) for a in call.args) \
+            and any(k.arg is None and is_name(k.value, fa.kwarg.arg) for k in call.keywords)
+        if forwards_all and not ({"max_volume", "auto_split"} & set(f.params)):
+            ctx.rep.holds(rule, c, "forwards *args/**kwargs unchanged", where=f.where(call))
+            continue
+        b = fv.bind_args(sup[0]) or {}
+        for attr in ("max_volume", "auto_split"):
+            v = fv.res.resolve(b[attr], sup[0].node) if attr in b else None
+            ok = v is not None and is_name(v, attr) and attr in f.params
+            ctx.rep.check(ok, rule, f"{c}/{attr}", f"passes its {attr} parameter on unchanged",
+                          f"the base constructor receives {attr}=`{show(v)[:50] if v is not None else 'its default'}` instead of the {attr} the user gave to {dev.name}", where=f.where(call))
 
 
 def _vol_lists(ctx, dev, rule):
@@ -332,6 +396,18 @@ def multi_disp(ctx) -> None:
     alt2 = isinstance(v, ast.BinOp) and isinstance(v.op, ast.FloorDiv) and to_poly(v.left) == M and is_name(v.right, "volume")
     ctx.rep.check(bool(ok_v or alt or alt2), rule, f"{f.qualname}/floor", "multi_disp = floor(max_volume / volume)",
                   f"multi_disp is reduced to `{show(v)[:60]}`; only floor(self.max_volume / volume) guarantees multi_disp * volume <= max_volume", where=w)
+    # the record's multi-dispense field is an integer: math.floor / int yield one, `//` of floats and numpy.floor do not
+    raw = n.ast.value
+    int_typed = False
+    if isinstance(raw, ast.Call) and call_fname(raw) == "int":
+        int_typed = True
+    elif isinstance(raw, ast.Call) and call_fname(raw) in ("floor", "ceil", "trunc"):
+        fn = raw.func
+        mod = fn.value.id if isinstance(fn, ast.Attribute) and isinstance(fn.value, ast.Name) else None
+        target = f.module.imports.get(mod if mod else call_fname(raw)) if hasattr(f.module, "imports") else None
+        int_typed = (target or "").split(".")[0] == "math" or (target is None and mod == "math")
+    ctx.rep.check(int_typed, rule, f"{f.qualname}/int-typed", "the reduced multi_disp is a Python int (math.floor / int)",
+                  f"multi_disp is reduced to `{show(raw)[:60]}`, which is a float for float operands: the R record's multi-dispense field is then printed as e.g. `2.0`", where=w)
     # the reduced value is what the record gets
     emit = [x for x in fv.cfg.nodes if any(e.kind == "EMIT" and e.arg == "R" for e in ctx.E.direct(fv, x))]
     ctx.rep.check(bool(emit) and all(fv.cfg.reaches(n.id, e.id) for e in emit), rule, f"{f.qualname}/before-emit", "the reduction precedes the R record", "the R record is emitted before multi_disp is reduced", where=w)
